@@ -325,7 +325,9 @@ def dispatch(mg):
                     # the pairing (V_k, omega_k) of the file must arrive intact; the order in which the pairs are listed is not fixed by the property
                     pairs_in = sorted(zip(numpy.asarray(mv, dtype=float).tolist(), numpy.asarray(mf, dtype=float).tolist()))
                     pairs_want = sorted(zip([float(vol.volume) for vol in inp.volumes], want_f.tolist()))
-                    if name != fns[method] or kw != want_kw or pairs_in != pairs_want or va is not grid:
+                    # the configured order (and method) must arrive; further keyword arguments (a pre-computed abscissa, say) are the callee's business
+                    kw_ok = all(kw.get(k_) == v_ for k_, v_ in want_kw.items())
+                    if name != fns[method] or not kw_ok or pairs_in != pairs_want or not (va is grid or numpy.array_equal(numpy.asarray(va, dtype=float), grid)):
                         return core.refuted("finite", "%s: slot (q=%d, m=%d) is interpolated by %s%r from frequencies %s" % (method, q, m, name, kw, mf.tolist()),
                                             witness_id="dispatch-args:%s" % method, replay={"reproduced": True})
                 tagno = 0
